@@ -1,5 +1,6 @@
 \* the code as it is (own proposal NOT logged): TLC must find H6 here, validator 2 is proposer of (1,0); rounds 0, one height,
 \* one valid peer value, votes from peers 1 and 3; every crash point, up to 2 crashes
+\* Expected outcome: Invariant NoConflictProposal violated after ~160-630 states (H6).
 CONSTANTS
   NV = 4
   Power <- DrvUnitPower
